@@ -65,7 +65,8 @@ def _run_variant(variant, fkey, lab, path, allowed, want_observed):
     act, args = json.loads(lab)
     ctx = B.new_ctx(variant)
     out = {"variant": variant, "issues": [], "to": None, "unsupported": False, "drift": None, "not_run": False}
-    if (variant in B.RT_ONLY_CLASSES and act not in B.RT_ACTS) or (variant in B.TWIN_CLASSES and act not in B.TWIN_ACTS) or (act in B.PLAIN_ONLY_ACTS and variant != "plain") \
+    if (variant in B.FRESH_ONLY_CLASSES and (len(path) > 1 or act not in B.FRESH_ACTS)) or \
+            (variant in B.RT_ONLY_CLASSES and act not in B.RT_ACTS) or (variant in B.TWIN_CLASSES and act not in B.TWIN_ACTS) or (act in B.PLAIN_ONLY_ACTS and variant != "plain") \
             or (_G.get("light") and act in B.NAME_BLIND_ACTS and variant != "plain"):
         out["not_run"] = True
         return out
